@@ -19,6 +19,11 @@ def case_spec(seed, i):
         # "either role" stated explicitly is the same as stating nothing: still ambiguous when both roles are possible
         if n['kind'] == 'metric' and n.get('type') is None and rnd.random() < .2:
             n['type'] = 'OBJ_OR_CON'
+    # same-named metrics (one "mass" per subsystem), told apart by idx
+    mets = [n for n in sp['nodes'] if n['kind'] == 'metric']
+    if len(mets) >= 2 and rnd.random() < .3:
+        for k, n in enumerate(rnd.sample(mets, rnd.randint(2, len(mets)))):
+            n['label'], n['idx'] = 'mass', k
     return 'gen', sp
 
 
